@@ -675,6 +675,7 @@ func (c *Client) Do(ctx context.Context, q Query) (err error) {
 			span.End()
 		}()
 	}
+	parentCtx := ctx
 	g, ctx := errgroup.WithContext(ctx)
 	done := make(chan struct{})
 	var (
@@ -789,7 +790,13 @@ func (c *Client) Do(ctx context.Context, q Query) (err error) {
 		}
 	})
 	g.Go(func() error {
-		<-done
+		select {
+		case <-done:
+		case <-ctx.Done():
+			// Not waiting for receiver, it can be blocked on reading packet
+			// body, where no read deadline is set. Closing connection will
+			// unblock it.
+		}
 		verifPoint("cancel:after-done")
 		// Handling query cancellation if needed.
 		if (ctx.Err() != nil || recvFailed.Load()) && !gotException.Load() {
@@ -800,6 +807,11 @@ func (c *Client) Do(ctx context.Context, q Query) (err error) {
 		return nil
 	})
 	err = g.Wait()
+	if ctxErr := parentCtx.Err(); err != nil && ctxErr != nil && !errors.Is(err, ctxErr) {
+		// Query is canceled, but failure of read from closed connection can
+		// be reported first. Propagating context error to allow matching it.
+		err = multierr.Append(ctxErr, err)
+	}
 	if err != nil && !c.IsClosed() {
 		// Query failed, but connection is kept, e.g. on server exception.
 		if sendFailed.Load() {
